@@ -719,6 +719,10 @@ func runConcConn(c *simkit.Choice, r *simkit.Rec) {
 	ncloser := 1 + c.Weighted([]int{2, 2, 1}, simkit.LScen) // concurrent Close calls on the client side
 	implicitHS := c.Bool(1, 3, simkit.LScen)                // no explicit Handshake: first Read/Write calls run it, concurrently
 	statePoller := c.Bool(1, 3, simkit.LScen)
+	halfCloser := !closer && c.Bool(1, 3, simkit.LScen) // CloseWrite on the client while its writers may still be writing
+	halfCloseAfter := c.Range(0, 300, simkit.LScen)
+	corrupt := c.Bool(1, 5, simkit.LScen) // one bit of the server->client stream flipped in transit during the application phase
+	corruptOff := c.Range(0, 400, simkit.LScen)
 	closeAfter2 := c.Range(0, 60, simkit.LScen)
 	type wplan struct{ bufs []string }
 	var wp [2][]wplan
@@ -806,6 +810,27 @@ func runConcConn(c *simkit.Choice, r *simkit.Rec) {
 				if hsErr[side] != nil {
 					return
 				}
+			}
+			if corrupt && side == 1 && !implicitHS {
+				wp := b.WrPipe()
+				wp.FlipMask = 0x10
+				wp.FlipAt = wp.BytesW + int64(corruptOff)
+			}
+			if halfCloser && side == 0 {
+				s.Spawn("cli-halfcloser", 0, func() {
+					for k := 0; k < halfCloseAfter; k++ {
+						simkit.Yield(-25)
+					}
+					h := slot(0)
+					if h != nil {
+						h.in = connIn{kind: 2}
+						h.call = int64(s.Seq())
+					}
+					err := conn.CloseWrite()
+					if h != nil && err == nil {
+						h.ret = int64(s.Seq()) // (an early CloseWrite before the handshake is a no-op and stays out of the history)
+					}
+				})
 			}
 			if statePoller && side == 0 {
 				// ConnectionState concurrently with the (possibly implicit) handshake and the traffic
@@ -940,7 +965,7 @@ func runConcConn(c *simkit.Choice, r *simkit.Rec) {
 	}
 	s.Run()
 	closeReturned, lateWriteOK := ci.done, ci.lateWrite
-	r.Detail = map[string]interface{}{"program": "conc-conn", "suite": fmt.Sprintf("%04x", suite), "writers": nw, "readers": nr, "closer": closer, "close_after_yields": closeAfter, "policy": fmt.Sprintf("%+v", pol), "preempts": s.Preempts, "ops": nhist}
+	r.Detail = map[string]interface{}{"half_closer": halfCloser, "corrupt_in_transit": corrupt && b.WrPipe().Flipped, "program": "conc-conn", "suite": fmt.Sprintf("%04x", suite), "writers": nw, "readers": nr, "closer": closer, "close_after_yields": closeAfter, "policy": fmt.Sprintf("%+v", pol), "preempts": s.Preempts, "ops": nhist}
 	r.FromSim(s)
 	r.Nontrivial = true
 	r.Sig(s.TraceHash()[0])
@@ -1000,6 +1025,12 @@ func runConcConn(c *simkit.Choice, r *simkit.Rec) {
 		// everything must wind down
 	}
 	if s.Reason == simkit.StopDeadlock {
+		if corrupt && b.WrPipe().Flipped {
+			// a flipped length field makes the reader wait for bytes that never come while
+			// nobody closes the transport in this program: waiting is legitimate
+			r.Outcome = "waiting-after-corruption"
+			return
+		}
 		r.Violate("deadlock", site, fmt.Sprintf("no task can run: %v", s.Blocked))
 		return
 	}
